@@ -48,9 +48,15 @@ Definition d_hop (v : val) : hop :=
       if tag_is t "push" then HPush x else if tag_is t "pushc" then HPushC x
       else if tag_is t "sfn" then HSfn x else if tag_is t "sext" then HSext x
       else if tag_is t "join" then HJoin x else if tag_is t "wfn" then HWfn x
-      else if tag_is t "wext" then HWext x else HBad
+      else if tag_is t "wext" then HWext x
+      else if tag_is t "clonefrom" then HCollect [x]     (* clone_from(&PathBuf::from(x)): the buffer becomes x, as collecting [x] does *)
+      else HBad
   | VC t [] =>
-      if tag_is t "pop" then HPop else if tag_is t "clear" then HClear else if tag_is t "norm" then HNorm else HBad
+      if tag_is t "pop" then HPop else if tag_is t "clear" then HClear else if tag_is t "norm" then HNorm
+      else if tag_is t "shrinkfit" then HExtend []        (* capacity management leaves the contents alone, as extending by nothing does *)
+      else HBad
+  | VC t [VI _] =>
+      if tag_is t "reserve" || tag_is t "shrinkto" then HExtend [] else HBad
   | VC t [VL xs] =>
       let bs := flat_map (fun x => match x with VB b => [b] | _ => [] end) xs in
       if tag_is t "extend" then HExtend bs else if tag_is t "collect" then HCollect bs else HBad
